@@ -151,6 +151,27 @@ Theorem C13_ndp_model_label_admissible : forall s intf ns ll t,
   admissible (ndp_reasons s intf ns ll t) (ndp_process s intf ns ll t) = true.
 Proof. exact ndp_process_admissible. Qed.
 
+(* The responder LOOP (arpResponder.run: processRequest until dropReasonClosed).  A frame the parsers
+   reject is a no-op: as long as the socket is not closed every frame is processed, and a
+   well-formed request is answered exactly as if it were the only frame, whatever malformed frames
+   came before it.  The variant that takes a malformed frame for the end of the socket
+   ([arp_run_exit]) processes nothing after the first one (refuted).  The Go harness feeds runt /
+   truncated / oversized-length / foreign-ethertype frames through the real read path between
+   well-formed requests, and runs the real run() loop across a malformed frame. *)
+Theorem C13_malformed_frame_noop : forall s intf mac rs i f,
+  ~ In RxClosed rs -> nth_error rs i = Some (RxFrame f) ->
+  nth_error (arp_run s intf mac rs) i = Some (arp_process_frame s intf mac f).
+Proof. exact arp_run_frame. Qed.
+
+Theorem C13_malformed_frame_loop_goes_on : forall s intf mac rs,
+  ~ In RxClosed rs -> arp_run s intf mac rs = map (rx_drop s intf mac) rs.
+Proof. exact arp_run_all. Qed.
+
+Theorem C13_malformed_as_closed_refuted : forall s intf mac pre post,
+  ~ In RxClosed pre -> ~ In RxMalformed pre ->
+  length (arp_run_exit s intf mac (pre ++ RxMalformed :: post)) = S (length pre).
+Proof. exact arp_run_exit_stops. Qed.
+
 Theorem C13_ndp_reply_iff : forall s intf ns ll t,
   ndp_process s intf ns ll t = DNone <-> ns = true /\ ll = true /\ should_announce s t intf = DNone.
 Proof. exact ndp_reply_iff. Qed.
